@@ -57,11 +57,15 @@ Combos == {<<0, 0, FALSE>>, <<1, 1, TRUE>>, <<2, 2, TRUE>>, <<0, 3, FALSE>>, <<1
 TypeChoices(sh, c) == IF Deg(sh, c) = 2 THEN {"ROADM", "ILA", "FUSED", "other"} ELSE {"ROADM", "ILA", "other"}
 Assignments(sh) == {f \in [SitesOf(sh) -> {"ROADM", "ILA", "FUSED", "other"}] : \A c \in SitesOf(sh) : f[c] \in TypeChoices(sh, c)}
 NoSvc == <<>>
+\* layouts: no empty line anywhere / empty lines between (and in front of) the rows of every sheet
+NoGaps == [nodes |-> <<>>, links |-> <<>>, eqpt |-> <<>>, roadms |-> <<>>, services |-> <<>>]
+Gappy  == [nodes |-> <<0, 1, 0, 2>>, links |-> <<0, 2, 1, 1>>, eqpt |-> <<1, 1, 2>>, roadms |-> <<1>>, services |-> <<0, 1, 2>>]
 Mk(sh, f, combo, svc) ==
   LET nodes == [i \in 1..Len(SiteSeq(sh)) |-> [city |-> SiteSeq(sh)[i], type |-> f[SiteSeq(sh)[i]]]]
       rows0 == EqptOf(sh, combo[2])
       rows == SelectSeq(rows0, LAMBDA r : f[r.a] # "FUSED")        \* vocabulary: no Eqpt row on a FUSED site
-      w0 == [nodes |-> nodes, links |-> LinksOf(sh, combo[1]), eqpt |-> rows, roadms |-> <<>>, services |-> svc]
+      w0 == [nodes |-> nodes, links |-> LinksOf(sh, combo[1]), eqpt |-> rows, roadms |-> <<>>, services |-> svc,
+             blanks |-> IF combo[1] = 1 THEN Gappy ELSE NoGaps]
       r1 == IF combo[3] /\ rows # <<>> /\ EffType(w0, rows[1].a) = "ROADM"
             THEN <<[a |-> rows[1].a, z |-> rows[1].z, target |-> Num(-195, 1)]>> ELSE <<>>
   IN [w0 EXCEPT !.roadms = r1]
@@ -81,6 +85,11 @@ Mutations(w) ==
       [w EXCEPT !.links = Append(w.links, [l1 EXCEPT !.z = "x"])],
       [w EXCEPT !.links = Append(w.links, l1)],
       [w EXCEPT !.links = Append(w.links, [l1 EXCEPT !.a = l1.z, !.z = l1.a])],
+      \* the same pair of sites joined twice is a duplicate whatever the other cells of the second row say
+      [w EXCEPT !.links = Append(w.links, [l1 EXCEPT !.east.cable = "c9"])],
+      [w EXCEPT !.links = Append(w.links, [l1 EXCEPT !.a = l1.z, !.z = l1.a, !.east.cable = "c9", !.west.cable = "w9"])],
+      [w EXCEPT !.links = Append(w.links, [l1 EXCEPT !.east.dist = Num(33, 0), !.east.cable = "", !.west = BlankLV])],
+      [w EXCEPT !.links = <<[l1 EXCEPT !.a = l1.z, !.z = l1.a, !.east.fiber = "NZDF", !.east.cable = "first"]>> \o w.links],
       [w EXCEPT !.nodes = Append(w.nodes, [city |-> "e", type |-> "ROADM"])],
       [w EXCEPT !.eqpt = Append(w.eqpt, Row("x", "a", AmpA, AmpN))],
       [w EXCEPT !.eqpt = Append(w.eqpt, Row("a", "x", AmpA, AmpN))],
@@ -102,14 +111,14 @@ ServiceSheets(mid) ==
    <<Svc("1", "a", "c", "mode 1", Num(5, -1), Num(125, 2), Num(76, 0), <<"2", "3">>, <<>>, "", Num(4, -2)),
      Svc("2", "c", "a", "", Num(625, 1), B, B, <<>>, <<>>, "Yes", Num(1, -2)),
      Svc("3", "a", mid, "mode 1", Num(5, -1), Num(0, 0), B, <<"1">>, <<>>, "no", Num(1, -2))>>}
-ServiceWorkbooks ==
+ServiceWorkbooks0 ==
   {Mk(Shapes[s], f, combo, svc) : s \in {2, 4}, f \in {[a |-> "ROADM", b |-> "ROADM", c |-> "ROADM"]},
                                   combo \in {<<0, 0, FALSE>>, <<1, 1, FALSE>>}, svc \in ServiceSheets("b")}
   \cup {Mk(Shapes[6], [a |-> "ROADM", b |-> "ILA", c |-> "ROADM", d |-> "ROADM"], <<0, 0, FALSE>>, svc) : svc \in ServiceSheets("d")}
 
 \* inconsistent rows that no documented rule names: FUSED site of degree 1 / 3, Eqpt row on a FUSED site
 RawMk(sh, f, rows, v) == [nodes |-> [i \in 1..Len(SiteSeq(sh)) |-> [city |-> SiteSeq(sh)[i], type |-> f[SiteSeq(sh)[i]]]],
-                          links |-> LinksOf(sh, v), eqpt |-> rows, roadms |-> <<>>, services |-> <<>>]
+                          links |-> LinksOf(sh, v), eqpt |-> rows, roadms |-> <<>>, services |-> <<>>, blanks |-> NoGaps]
 InconsistentWorkbooks ==
   {RawMk(Shapes[1], [a |-> "ROADM", b |-> "FUSED"], <<>>, 0),
    RawMk(Shapes[3], [a |-> "FUSED", b |-> "ILA", c |-> "ROADM", d |-> "ROADM"], <<>>, 2),
@@ -117,6 +126,8 @@ InconsistentWorkbooks ==
    RawMk(Shapes[7], [a |-> "ROADM", b |-> "ROADM", c |-> "FUSED", d |-> "ROADM"], <<>>, 1),
    RawMk(Shapes[2], [a |-> "ROADM", b |-> "FUSED", c |-> "ROADM"], <<Row("b", "c", AmpA, AmpN)>>, 0),
    RawMk(Shapes[6], [a |-> "ROADM", b |-> "FUSED", c |-> "FUSED", d |-> "ROADM"], <<Row("b", "a", AmpC, AmpA), Row("a", "b", AmpA, AmpN)>>, 2)}
+\* every Service sheet in three layouts: contiguous rows, empty lines between blocks of rows, empty first line
+ServiceWorkbooks == {[w EXCEPT !.blanks.services = g] : w \in ServiceWorkbooks0, g \in {<<>>, <<0, 1, 2>>, <<2, 0, 1>>}}
 Workbooks == ValidWorkbooks \cup InvalidWorkbooks \cup ServiceWorkbooks \cup InconsistentWorkbooks
 
 -----------------------------------------------------------------------------
